@@ -86,7 +86,7 @@ def h_to_ref(ctx):
     if is_1pu and "+" in alg and ENC[enc][0] != "cbc":
         return Outcome("skip-forbidden", [], nontrivial=None)
     zipv = ctx.deviate("zip", [None, "DEF"])
-    aad = ctx.deviate("aad", [None, b"aad!", b"a", b"abc"]) if form != "compact" else None
+    aad = ctx.deviate("aad", [None, b"aad!", b"a", b"abc", b""]) if form != "compact" else None
     apuv = ctx.deviate("apu/apv", [None, ("QWxpY2U", "Qm9i")]) if alg.startswith("ECDH") else None
     own_p2 = ctx.deviate("caller_p2s_p2c", [False, 1000, 999, 8]) if alg.startswith("PBES2") else False
     pname, plaintext = ctx.deviate("plaintext", c04.plaintexts())
@@ -304,6 +304,14 @@ _pz = Part("zip-framing", h_zip_framing, split_depth=2)
 _pl = Part("joserfc-multi-recipient-to-ref", h_lib_multi, split_depth=2)
 _pl.single_bucket_ok = True
 _pz.single_bucket_ok = True
+def h_again(ctx):
+    """joserfc encrypts several messages from ONE header dict the caller keeps (the library writes epk / iv / tag / p2s into it), in every
+    serialization: each message decrypts under the independent implementation (C04's sequences, only the reference's verdicts)."""
+    out = c04.h_again(ctx)
+    out.violations = [v for v in out.violations if "reference" in v["fingerprint"] or "encryption fails" in v["fingerprint"]]
+    return out
+
+
 def h_threads(ctx):
     """Interoperability while a second call runs: every token joserfc encrypts under a schedule is decrypted by the reference
     (and by joserfc); operations, shared objects and oracle are those of C04's thread part (a smaller menu in the quick tier)."""
@@ -315,4 +323,5 @@ PARTS = [
     Part("ref-to-joserfc", h_from_ref, bound={"quick": 1, "thorough": 2}, split_depth=2, budget={"quick": 1500, "thorough": 2400}),
     Part("joserfc-to-ref", h_to_ref, bound={"quick": 1, "thorough": 2}, split_depth=2, budget={"quick": 1500, "thorough": 2400}),
     _pm, _pv, _pz, _pl,
+    Part("one-header-dict-several-messages-to-ref", h_again, bound={"quick": 0, "thorough": 1}, split_depth=2),
 ]
